@@ -21,7 +21,8 @@
 //   Deferred callee       a deferred call, emitted after Ret in LIFO order
 //   GoStart               a `go` statement (its literal can be extracted separately)
 //   Cont / Brk            continue / break (path ends; loops are unrolled once)
-//   LoopEnd               fell off the end of a loop body
+//   LoopEnd               fell off the end of the body of an unbounded `for { }` loop (one iteration is a
+//                         path); in `for cond {}` and `for range` loops such a path goes on after the loop
 //   Unknown pos           unsupported statement form
 package main
 
@@ -376,11 +377,14 @@ func (g *gen) stmt(p path, s ast.Stmt) []path {
 			}
 			body := g.stmts(start, x.Body.List)
 			for _, b := range body {
-				if !b.done {
+				if !b.done && x.Cond == nil {
+					// `for { ... }`: one iteration is a path of its own
 					b = b.clone()
 					b.evs = append(b.evs, ev{"LoopEnd", "", ""})
 					b.done = true
 				}
+				// a bounded loop (`for cond {}`) whose body falls off its end: the
+				// path goes on after the loop (body executed once, then exit)
 				out = append(out, b)
 			}
 		}
@@ -397,14 +401,9 @@ func (g *gen) stmt(p path, s ast.Stmt) []path {
 		enter := q0.clone()
 		enter.evs = append(enter.evs, ev{"Cond", "range " + txt(x.X) + " has next", "true"})
 		body := g.stmts([]path{enter}, x.Body.List)
-		for _, b := range body {
-			if !b.done {
-				b = b.clone()
-				b.evs = append(b.evs, ev{"LoopEnd", "", ""})
-				b.done = true
-			}
-			out = append(out, b)
-		}
+		// a body path that falls off its end goes on after the loop (the body is
+		// executed once, then the loop is left); return / continue / break end the path
+		out = append(out, body...)
 		return out
 	case *ast.SelectStmt:
 		var out []path
